@@ -396,6 +396,17 @@ class MatrixTheory:
                 return True
             return False
         idx = self.ev(sl, st)
+        if isinstance(idx, VInt) and isinstance(val, VList) and not m.flat:
+            # M[i] = v: the whole row i (for a rank-3 array: the (w, p) block i, given as w opaque rows)
+            cv = st.heap.lists[val.ref]
+            if cv.etype != et:
+                raise Unsupported('row assignment of %s values into a %s array' % (cv.etype, et))
+            i_ = idx.t
+            self.used('M[i] = block (row / block assignment)')
+            self.oblige(st, 'index', 'row-index-in-range', z3.And(i_ >= 0, i_ < n), tgt, raises='IndexError')
+            self.oblige(st, 'pre', 'row-assignment.same-length', cv.length == w, tgt, raises='ValueError')
+            st.heap.rags[m.ref] = RagCell(et, n, z3.K(z3.IntSort(), w), z3.Store(data, i_, cv.leaves[0]))
+            return True
         if isinstance(idx, VMatMask):
             if not (idx.data.eq(data)):
                 raise Unsupported('mask computed from another (or an older) matrix')
